@@ -4,7 +4,7 @@
 From Coq Require Import Permutation.
 From Eino Require Import Base.Util Base.FMUniverse Model.FieldMap Proofs.FieldMapOverlap
   Model.FieldMapOwn Proofs.FieldMapAssign Proofs.FieldMapComm Proofs.FieldMapGetPut Proofs.FieldMapRun
-  Proofs.FieldMapOwn Model.FieldMapPromote Proofs.FieldMapPromote Proofs.FieldMapPartition Proofs.FieldMapFanIn Model.FieldMapClean Proofs.FieldMapClean.
+  Proofs.FieldMapOwn Proofs.FieldMapFresh Model.FieldMapPromote Proofs.FieldMapPromote Proofs.FieldMapPartition Proofs.FieldMapFanIn Model.FieldMapClean Proofs.FieldMapClean.
 
 (* ---------------------------------------------------------------- overlap detection *)
 
@@ -393,6 +393,44 @@ Example source_unmodified_nonvacuous :
 Proof.
   split; [eexists; eexists; split; vm_compute; reflexivity|].
   split; eexists; vm_compute; reflexivity.
+Qed.
+
+(* "Identically on every run", heap side (round 6): every conversion makes the successor's input anew.
+   In the value the instrumented convertTo returns, every heap object (pointer target, map) that
+   does not lie at or below a mapped path carries the tag "allocated by this call" (invariant
+   [own_ok] of Proofs/FieldMapOwn.v: a struct is inline, a pointer / map off the mapped paths must be
+   tagged [true]).  [run_invoke_w] / [run_stream_w] call [convert_to_w] once per request resp. per
+   chunk ([source_unmodified] above: they ARE the runs): two requests on one compiled runnable, or
+   two chunks of one stream, share no object except what the mapped values themselves bring
+   along, so what a successor does to the input it was handed cannot show in another run. *)
+Theorem successor_input_fresh :
+  forall (env : senv) (T : ty) (m : fmap) (d : oval) (fl : bool),
+    no_conflict (keys m) -> convert_to_w env T m = Ok (d, fl) -> own_ok d (keys m).
+Proof. exact convert_to_w_fresh. Qed.
+Print Assumptions successor_input_fresh.
+
+(* non-vacuity: an accepted key set whose conversion instantiates a pointer (PI) and makes two maps
+   (MA, MP), all tagged "allocated by this call", and stores a predecessor's pointer (tagged
+   "existed before") AT a mapped path; and the invariant does exclude a value in which an object
+   that existed before sits off the mapped paths (what a converter that hands out a cached input
+   would return) *)
+Definition ex_fresh_m : fmap :=
+  [([11; 2], VInt 7); ([16; 100], VStr "s"); ([19; 100], VPtr (TStruct 1) (Some (VStruct 1 [(2, VInt 1)])))]%N.
+
+Example successor_input_fresh_nonvacuous :
+  (no_conflict (keys ex_fresh_m) /\
+   convert_to_w ex_env (TPtr (TStruct 2)) ex_fresh_m =
+     Ok (OPtr true (TStruct 2) (Some (OStruct 2
+           [(11, OPtr true (TStruct 1) (Some (OStruct 1 [(2, OInt 7)])));
+            (16, OMap true true TAny (Some [(100, OStr "s")]));
+            (19, OMap true true (TPtr (TStruct 1)) (Some [(100, OPtr false (TStruct 1) (Some (OStruct 1 [(2, OInt 1)])))]))])), false)%N) /\
+  ~ own_ok (OStruct 2 [(11, OPtr false (TStruct 1) (Some (OStruct 1 [])))])%N [[16; 100]]%N.
+Proof.
+  split; [split; [vm_compute; repeat split; repeat constructor | vm_compute; reflexivity]|].
+  intros H. inversion H as [? ? Hin| | | |? ? ? Hf| | | |]; subst.
+  - simpl in Hin. destruct Hin as [E|[]]. discriminate.
+  - specialize (Hf 11%N _ eq_refl). simpl in Hf.
+    inversion Hf as [? ? Hin| | | | | | | |]; subst. destruct Hin.
 Qed.
 
 (* In an accepted set no target path lies strictly below (or equals) another one: an
